@@ -283,6 +283,9 @@ def optional_keys(ctx, rule):
         ent = keys.get(k)
         ctx.check(ent is not None and ent["skip"], rule, ser.path, "skip:%s" % k, "key %r is left out (skip_serializing_if = Option::is_none) when the map has no value" % k,
                   detail=str(ent))
+        if ent is not None and ent["skip"]:
+            ctx.check(q.wild("Option::is_none(arg1.*)", str(ent.get("skip_pred"))), rule, ser.path, "skip-pred:%s" % k,
+                      "key %r is left out only when the value is None (an empty list is still written: `\"sections\":[]` is what makes a document an index map)" % k, detail=str(ent.get("skip_pred")))
     ctx.check("version" in keys and "sources" in keys, rule, ser.path, "keys:version,sources", "version and sources are always written")
     body = ctx.body(AS_RAW["regular"])
     agg = raw_aggregate(body)
@@ -404,7 +407,11 @@ def serde_keys(ser):
             k = q.arg_expr(ser, t, 1)
             ks = k.unname().str_value() if isinstance(k.unname(), Const) else None
             if ks is not None:
-                keys.setdefault(ks, {"field": None, "skip": False})["skip"] = True
+                ent = keys.setdefault(ks, {"field": None, "skip": False})
+                ent["skip"] = True
+                # the predicate under which the key is left out
+                preds = [q.shape(c.discr) for c in q.path_conditions(ser, bi) if c.truth() is True and isinstance(c.discr.unname() if hasattr(c.discr, "unname") else c.discr, Call)]
+                ent["skip_pred"] = preds[-1] if preds else None
     return keys
 
 
@@ -564,6 +571,29 @@ def range_writer(ctx, rule, parts=("R1", "R2", "R3")):
                     guard_ok = False
             ok = guard_ok
     ctx.check(ok, rule, fn, "R2:bounded-bit-write", "before bit NUM is set the byte buffer is grown to NUM / 8 + 1 bytes unless it is already that long")
+    # the flush flag: encode_rmi is only called while the flag says "bits were set since the last
+    # flush", and flushing (encode + clear) always lowers the flag before it is tested again -
+    # encode_rmi never sees the emptied buffer (it slices bits[..last + 1])
+    encs = q.calls_to(body, "encoder::encode_rmi")
+    flags = set()
+    for eb_, et in encs:
+        for c in q.path_conditions(body, eb_):
+            if c.truth() is True and isinstance(c.discr.unname() if hasattr(c.discr, "unname") else c.discr, Var):
+                x = c.discr.unname() if hasattr(c.discr, "unname") else c.discr
+                if body.local_ty(x.local) == "bool":
+                    flags.add(x.local)
+    if ctx.check(len(flags) == 1 and len(encs) == 2, rule, fn, "R2:flush-flag", "both flushes of the bit buffer are guarded by one `bits pending` flag", detail=str(sorted(flags))):
+        HAD = flags.pop()
+        fr = {HAD: "HAD"}
+        ctx.check(all(has_fact(body, eb_, fr, ("true", "HAD", None)) for eb_, _ in encs), rule, fn, "R2:flush-only-when-pending", "encode_rmi runs only when the flag is set")
+        lowers = set(site[0] for sh, site, _ in q.def_shapes(body, HAD, fr) if sh == "0")
+        raises = [site[0] for sh, site, _ in q.def_shapes(body, HAD, fr) if sh == "1"]
+        tests = [d for d in range(len(body.blocks)) if body.blocks[d]["term"]["k"] == "switch" and q.shape(body.expr_of_operand(body.blocks[d]["term"]["discr"]), fr) == "HAD"]
+        clears = [bi for bi, t in q.calls_to(body, "Vec::<T, A>::clear") if q.root_local(q.arg_expr(body, t, 0)) == data]
+        ok = bool(clears) and all(_must_pass_to(body, c, t, lowers) for c in clears for t in tests)
+        ctx.check(ok, rule, fn, "R2:flag-lowered-after-flush", "after the buffer is flushed and cleared the flag is lowered before it can be tested again (no second flush of the emptied buffer)")
+        ctx.check(bool(raises) and all(body.dominates(r, sb) or r == sb or body.reaches(r, sb, avoid=[head]) or body.reaches(sb, r, avoid=[head]) for r in raises), rule, fn, "R2:flag-raised-with-bit",
+                  "the flag is raised in the iteration that sets a bit")
     # flush: encode_rmi called only with had_rmi, before ';' and at the end
     enc = q.calls_to(body, "encoder::encode_rmi")
     ctx.check(len(enc) == 2, rule, fn, "R2:flush:sites", "the per-line bitfield is flushed at a line change and at the end")
